@@ -5,6 +5,7 @@ import (
 )
 
 func BuildCallMap(parserDeps []core_domain.CodeDataStruct) map[string]int {
+	parserDeps = core_domain.WithInnerStructures(parserDeps)
 	var projectMethods = make(map[string]string)
 	for _, clz := range parserDeps {
 		clz.BuildStringMethodMap(projectMethods)
